@@ -420,7 +420,7 @@ func ruleEvict(r *Report) {
 	for _, c := range closes {
 		// Ifs that dominate the close and have an edge that bypasses it while staying in the loop
 		for _, b := range liveBlocks(fn) {
-			if !b.Dominates(c.Block) || b == c.Block || len(b.Instrs) == 0 {
+			if !dominates(b, c.Block) || b == c.Block || len(b.Instrs) == 0 {
 				continue
 			}
 			iff, ok := b.Instrs[len(b.Instrs)-1].(*ssa.If)
@@ -445,25 +445,31 @@ func ruleEvict(r *Report) {
 
 // isIndexFound: `i >= 0` / `i < 0` / `i != -1` style test of an index lookup result.
 func isIndexFound(bo *ssa.BinOp) bool {
-	k, ok := constInt(bo.Y)
-	if !ok {
-		return false
-	}
-	if c, isC := bo.X.(*ssa.Call); isC {
-		ck := CalleeKey(c)
-		return (k == 0 || k == -1) && (strings.Contains(ck, "indexOf") || strings.Contains(ck, "Index"))
+	for _, v := range cmpViews(bo) {
+		k, ok := constInt(v.Y)
+		if !ok {
+			continue
+		}
+		if c, isC := v.X.(*ssa.Call); isC {
+			ck := CalleeKey(c)
+			if (k == 0 || k == -1) && (strings.Contains(ck, "indexOf") || strings.Contains(ck, "Index")) {
+				return true
+			}
+		}
 	}
 	return false
 }
 
 // isRangeHeader: comparison of a loop counter with len(...) (range loops are lowered to index loops).
 func isRangeHeader(bo *ssa.BinOp) bool {
-	if bo.Op != token.LSS {
-		return false
-	}
-	if c, ok := bo.Y.(*ssa.Call); ok {
-		if b, ok := c.Call.Value.(*ssa.Builtin); ok && b.Name() == "len" {
-			return true
+	for _, v := range cmpViews(bo) {
+		if v.Op != token.LSS {
+			continue
+		}
+		if c, ok := v.Y.(*ssa.Call); ok {
+			if b, ok := c.Call.Value.(*ssa.Builtin); ok && b.Name() == "len" {
+				return true
+			}
 		}
 	}
 	return false
@@ -1563,7 +1569,7 @@ func ruleCloseReleasesAll(r *Report) {
 			if i == j || a.Block == b.Block || names[i] == names[j] {
 				continue
 			}
-			if b.Block.Dominates(a.Block) {
+			if dominates(b.Block, a.Block) {
 				continue // b already ran (or is registered to run at every return)
 			}
 			if deferred[j] {
